@@ -87,6 +87,7 @@ func faultOpts(prop string, thorough bool) (GenOpts, faultEmphasis) {
 		em.ConnPhase = 5
 		em.Timeout = true
 		o.PoisonJSON = true
+		o.TableIDReuse = true
 		em.Kinds = []stopKind{stopFIN, stopRST, stopShortPacket, stopBadSeq, stopERR, stopERR, stopERR, stopEOF, stopCancel,
 			stopHandlerErr, stopMapperErr, stopMapperMiscount, stopUnsupportedEvent, stopInvalidEvent}
 	case "C07":
